@@ -5,6 +5,7 @@ import FlatccModel.Refmap
 import FlatccModel.Reader
 import FlatccModel.Ident
 import FlatccModel.Emitter
+import FlatccModel.PrintFlush
 /-! `fmodel`: executes the model's definitions on protocol lines (stdin → stdout, one result line per op line). -/
 open Flatcc Flatcc.Util
 
@@ -263,12 +264,44 @@ def emitOp (args : List String) : String :=
     " ".intercalate outs ++ s!" cap={s.capacity}"
   | _ => "bad-op"
 
+/-- pr <mode> <events>: see harness/h_print.c -/
+def prOp (args : List String) : String :=
+  open Flatcc.PrintFlush in
+  match args with
+  | [modeS, evS] =>
+    let s0 : Pr :=
+      if modeS.startsWith "fixed:" then initFixed (natArg (modeS.drop 6).toString)
+      else if modeS.startsWith "dyn:" then initDynamic (natArg (modeS.drop 4).toString)
+      else initFile
+    let gen (ctr len : Nat) : List Nat := (List.range len).map (fun i => ((ctr + i) * 131 + 7) % 251)
+    let (s, _) := (evS.splitOn ",").foldl (fun (acc : Pr × Nat) t =>
+      let (s, ctr) := acc
+      let k := natArg (t.drop 1).toString
+      if t.startsWith "r" then ((List.range k).foldl (fun s i => stepEv s (.raw (gen (ctr + i) 1))) s, ctr + k)
+      else if t.startsWith "w" then (stepEv s (.print (gen ctr k)), ctr + k)
+      else if t.startsWith "i" then (stepEv s (.indent k), ctr)
+      else if t == "p" then (stepEv s .fpartial, ctr)
+      else if t == "F" then (stepEv s .flushAll, ctr)
+      else (s, ctr)) (s0, 0)
+    -- what the API reports at the end
+    let s := match s.mode with
+      | .fixed => flush s false          -- get_buffer flushes (may raise overflow)
+      | .dynamic => flush s false
+      | .file => flush s true
+    let err := s.overflow
+    if s.mode == .fixed && err then "err=1 total=0 len=0 text=-"
+    else
+      let t := text s
+      s!"err={if err then 1 else 0} total={s.total + s.buf.length} len={t.length} text={hex8 (fnvBytes t)}"
+  | _ => "bad-op"
+
 def step (line : String) : String :=
   match line.trimAscii.toString.splitOn " " with
   | "num" :: args => numOp args
   | "refmap" :: args => refmapOp args
   | "ident" :: args => identOp args
   | "emit" :: args => emitOp args
+  | "pr" :: args => prOp args
   | "sort" :: args => sortOp ("sort" :: args)
   | "find" :: args => sortOp ("find" :: args)
   | "findn" :: args => sortOp ("findn" :: args)
